@@ -1286,6 +1286,19 @@ fn c07_cases(seed: u64, n: usize) -> Vec<Config> {
         };
         v.push(crate::mon_trace::object_heavy(&base, mix(seed ^ 0xC07, k as u64)));
     }
+    // two generations with far more than 4096 mutations each (every value of a 12 000-opcode pickle
+    // mutated): a budget, counter or pool shared between generators of one process shows when
+    // these run next to other generations on the thread rounds
+    for (p, unsafe_mut) in [(2u8, false), (4u8, true)] {
+        v.push(Config {
+            min: 12_000,
+            max: 12_000,
+            mutators: ALL_MK.to_vec(),
+            rate: 1.0,
+            unsafe_mut,
+            ..Config::default_for(p, Entropy::Seed(seed ^ 0xB0D6 ^ p as u64))
+        });
+    }
     // one generation that runs for well over a second (a wall-clock cut-off would show here)
     v.push(Config {
         min: 24_000,
@@ -1306,6 +1319,9 @@ fn run_bytes(cfg: &Config) -> Vec<u8> {
 pub fn c07(thorough: bool, seed: u64) -> CheckOutput {
     let n_cases = if thorough { 3000 } else { 400 };
     let cases = c07_cases(seed, n_cases);
+    let case_file = std::env::temp_dir().join(format!("pfv-c07-cases-{}.json", std::process::id()));
+    std::fs::write(&case_file, serde_json::to_string(&cases.iter().map(|c| c.to_json()).collect::<Vec<_>>()).unwrap()).expect("write case file");
+    std::env::set_var("PFV_C07_CASES", &case_file);
     let mut acc = Acc::new();
     // reference: main thread, instance 1; instance 2 right away
     let reference: Vec<Vec<u8>> = cases.iter().map(run_bytes).collect();
@@ -1572,6 +1588,7 @@ pub fn c07(thorough: bool, seed: u64) -> CheckOutput {
     if memo_rich < 20 {
         acc.inconclusive.push("too few memo-rich cases (>=2 memo keys then GET)".into());
     }
+    let _ = std::fs::remove_file(&case_file);
     CheckOutput {
         acc,
         rule: "cases = configurations from the full matrix (both entropy modes, a third with 200..500 opcodes for memo/alias traffic); each is generated twice on the main thread, once on each of 16 concurrent threads (own shuffled order, random yields/sleeps), once in each of >= 8 separately spawned processes (different TZ / cwd, fresh ASLR and hash seeds, each process running the list in its own order), once in a fresh process that generates nothing else (a sample of cases: no dependence on process history), and CLI batch directories are compared across RAYON_NUM_THREADS in {1,2,3,16}; full bytes are compared; distinct = distinct reference outputs; non-trivial = output defines >= 2 memo keys and executes a GET".into(),
@@ -1591,7 +1608,17 @@ pub fn child_main(args: &[String]) -> i32 {
             let n: usize = args[2].parse().unwrap();
             let order_seed: u64 = args.get(3).and_then(|s| s.parse().ok()).unwrap_or(0);
             let only: Option<usize> = args.get(4).and_then(|s| s.parse().ok());
-            let cases = c07_cases(seed, n);
+            // the parent hands the case list over as a file: building it involves steering, i.e.
+            // generating, and a process whose outputs are compared must not have generated
+            // anything but its cases (in its own order)
+            let cases: Vec<Config> = match std::env::var("PFV_C07_CASES") {
+                Ok(p) => {
+                    let text = std::fs::read_to_string(&p).expect("case file");
+                    let v: Value = serde_json::from_str(&text).expect("case json");
+                    v.as_array().expect("array").iter().map(Config::from_json).collect()
+                }
+                Err(_) => c07_cases(seed, n),
+            };
             let out = std::io::stdout();
             let mut o = out.lock();
             use std::io::Write;
